@@ -27,6 +27,7 @@ EXPLANATION = (
     "number of significant bits per variable, iterated to a fixpoint over the block loop) proving 32-bit discipline; "
     "structural match of the block/tail byte placement; comparison of literal constants with the Kafka "
     "Utils.murmur2 table (seed 0x9747b28c, m 0x5bd1e995, r 24, shifts 13/15, toPositive & 0x7fffffff)."
+    ' Also: the partitioner table belongs to the producer instance (R6); the murmur2 tail is decided by case analysis over len % 4 (R4).'
 )
 SHARED = [('C08', ['R1'], 'the partition list handed to partitioners is the sorted list of the metadata reply')]
 ASSUMPTIONS = ["Kafka Utils.murmur2 constants as transcribed in DESIGN.md appendix A", "itertools.cycle is round-robin",
